@@ -198,6 +198,7 @@ def _g2(ctx: Context) -> None:
     decs = [(n, c) for n, c, recv, args in pp.method_calls(ctx, gcfg, T, "decrypt") if len(args) == 3]
     meth_edges = []
     empty_edges = []
+    dec_equal_edges = []
     for n in gcfg.nodes:
         if n.kind == "test":
             tt = strip_sites(T.of(gcfg, n, n.exprs[0]))
@@ -205,14 +206,21 @@ def _g2(ctx: Context) -> None:
                 l, r = tt[2]
                 if r == const(hap.METHOD_RESUME) and l[0] == "call" and l[1] == attr(glob("int"), "from_bytes") and l[2][0] == call(attr(resp, "get"), const(hap.TLV_METHOD)):
                     meth_edges += gcfg.out_edges(n, ("F",) if tt[1][0] == "NotEq" else ("T",))
-                if r == const(b"") and l[0] == "call" and l[1][0] == "attr" and l[1][2] == "decrypt":
+                is_dec = lambda x: x[0] == "call" and x[1][0] == "attr" and x[1][2] == "decrypt"  # noqa: E731
+                if r == const(b"") and is_dec(l):
                     empty_edges += gcfg.out_edges(n, ("F",) if tt[1][0] == "NotEq" else ("T",))
+                elif r == const(b"") and l[0] == "phi" and any(is_dec(a) for a in l[1]) and all(is_dec(a) or (a[0] == "const" and a[1] != b"") for a in l[1]):
+                    # `except DecryptionError: plaintext = None` then `plaintext != b""`: the value that equals b"" can only be
+                    # the decrypt result (None != b""), so the equal outcome certifies BOTH a successful decrypt and an empty text
+                    es = gcfg.out_edges(n, ("F",) if tt[1][0] == "NotEq" else ("T",))
+                    empty_edges += es
+                    dec_equal_edges += es
     gates = [
         ("Method present", pp.presence_edges(ctx, gcfg, T, hap.TLV_METHOD, is_resp)),
         ("Method == Resume", meth_edges),
         ("SessionID present", pp.presence_edges(ctx, gcfg, T, hap.TLV_SESSION_ID, is_resp)),
         ("auth tag (EncryptedData) present", pp.presence_edges(ctx, gcfg, T, hap.TLV_ENCRYPTED_DATA, is_resp)),
-        ("AEAD decrypt of the auth tag succeeded (PR-Msg02)", [e for n, c in decs for e in ctx.normal_out(gcfg, n)]),
+        ("AEAD decrypt of the auth tag succeeded (PR-Msg02)", dec_equal_edges if dec_equal_edges else [e for n, c in decs for e in ctx.normal_out(gcfg, n)]),
         ("plaintext is empty", empty_edges),
     ]
     for name, edges in gates:
